@@ -272,12 +272,25 @@ def run(chk):
                 return [(in_c, in_k, ck)]
 
             def branch3(cond, pol, st, ctx):
-                # premise of every property: at least one segment.  `count <= 0` is infeasible.
+                # premise of every property: at least one segment.  A comparison of the segment count with 0 / 1 has one
+                # feasible outcome, however it is written (count <= 0, count > 0, 0 < count, count >= 1, !(count > 0) ...)
                 c = strip_copy(cond)
-                if c.get("k") == "bin" and c["op"] in ("<=", "<") and lit_value(c["r"]) == "0" and pol:
-                    l = strip_copy(c["l"])
-                    if is_this_mem(l) and "segment" in l["field"]:
-                        return []
+                neg = False
+                while isinstance(c, dict) and c.get("k") == "un" and c.get("op") == "!":
+                    c = strip_copy(c["e"])
+                    neg = not neg
+                if isinstance(c, dict) and c.get("k") == "bin" and c["op"] in ("<=", "<", ">", ">=", "==", "!="):
+                    l, r, op = strip_copy(c["l"]), strip_copy(c["r"]), c["op"]
+                    if lit_value(l) is not None and lit_value(r) is None:
+                        l, r = r, l
+                        op = {"<": ">", "<=": ">=", ">": "<", ">=": "<=", "==": "==", "!=": "!="}[op]
+                    if is_this_mem(l) and "segment" in l["field"] and l["field"].startswith("num") and lit_value(r) in ("0", "1"):
+                        k_ = int(lit_value(r))
+                        # truth for every count >= 1, if it is the same for all of them
+                        vals = {eval("n %s %d" % (op, k_)) for n in (1, 2, 7)}
+                        if len(vals) == 1:
+                            truth = vals.pop() != neg
+                            return [] if truth != pol else None
                 return None
 
             def enter3(g, call, cls=cls):
